@@ -56,9 +56,9 @@ IntLits == {[t |-> "0", v |-> 0, canon |-> TRUE], [t |-> "7", v |-> 7, canon |->
 \* how the literal is handed over: as str, or (for canonical ones) as the int itself
 IntForms == {"str", "int"}
 Bounds == {"none", "10", "20"}
-BoundVal(b) == IF b = "10" THEN 10 ELSE 20
+BoundVal(b) == IF b = "0" THEN 0 ELSE IF b = "10" THEN 10 ELSE 20
 IntCases == {[k |-> "int", lit |-> l, form |-> f, lo |-> a, hi |-> b] :
-               l \in IntLits, f \in IntForms, a \in {"none", "10"}, b \in {"none", "20"}}
+               l \in IntLits, f \in IntForms, a \in {"none", "0", "10"}, b \in {"none", "0", "20"}}
 IntObjCases == {[k |-> "intobj", obj |-> o] : o \in {"None", "float2", "float1_5", "True", "bytes5", "list", "str_none"}}
 IntLikeRef(x) == IF x.form = "int" THEN x.lit.canon ELSE x.lit.canon
 ValidateRef(x) == IF x.lit.v = NoInt THEN "ValueError"
